@@ -292,14 +292,16 @@ static void check_each_once(unsigned props, const char *what, int upto)
 }
 
 static void canon_one(int t);
+static int canon_hidden = 1;       /* serialise the members that only matter to a later rehash (state key: yes; comparison with a fresh object: no) */
 static void check_fresh(unsigned props, int t, const char *when)
 {
     char a[200], b[200]; size_t save = mc_kbn, n; static struct cstl_hash fresh, keep;
+    canon_hidden = 0;
     mc_kbn = 0; canon_one(t); n = mc_kbn < 199 ? mc_kbn : 199; memcpy(a, mc_kb, n); a[n] = 0;
     /* serialise a freshly initialised object through the same function */
     keep = TB[t]; cstl_hash_init(&fresh, m_off[t]); TB[t] = fresh;
     mc_kbn = 0; canon_one(t); n = mc_kbn < 199 ? mc_kbn : 199; memcpy(b, mc_kb, n); b[n] = 0;
-    TB[t] = keep; mc_kbn = save;
+    TB[t] = keep; mc_kbn = save; canon_hidden = 1;
     MC_CHECK(props, !strcmp(a, b), "%s the table object is not like a freshly initialised one: %s vs fresh %s", when, a, b);
 }
 
@@ -323,7 +325,10 @@ static int probe_body(size_t n, int f)
 }
 static void probe_reusable(void)
 {
-    int k, ab; static volatile int rc;
+    int k, ab; static volatile int rc; static struct cstl_hash after_clear;
+    /* the probe runs in checking passes only, and it leaves its traces in members the key now covers (sweep cursor, requested count): the search goes on
+     * from the object exactly as clear() left it.  A cleared table owns no allocation, and the probe ends with a clear, so restoring the bytes is safe. */
+    after_clear = *T;
     for (k = 0; k < 2; k++) {
         size_t n = (size_t)(k ? counts[NCOUNTS - 1] : counts[0]); int f = k ? F_H0 : (NF >= 2 ? F_H1 : F_H0);
         rc = -1;
@@ -332,6 +337,7 @@ static void probe_reusable(void)
         MC_CHECK(PC04, ab || rc == 0, "after clear the table is not reusable: resize(%zu), insert of %d elements, find, foreach_const, load, clear failed at step %d", n, N, rc);
         if (mc_branch_dead) return;
     }
+    *T = after_clear;
 }
 
 /* one keyed operation: C19 accounting around the real call */
@@ -598,6 +604,10 @@ static void canon_one(int t)
     KB_C('T'); KB_C(h->bucket.at ? 'a' : '0'); KB_U(h->bucket.count); KB_C('/'); KB_U(h->bucket.capacity); KB_C('f'); KB_U((unsigned)fid(h->bucket.hash));
     KB_C('n'); KB_U(h->count); KB_C('o'); KB_U(h->off); KB_C(h->bucket.cst ? '+' : '-');       /* the table-wide clean bit survives clear: hidden state */
     if (s.pending) { KB_C('P'); KB_U(h->bucket.rh.count); KB_C('f'); KB_U((unsigned)fid(h->bucket.rh.hash)); KB_C('c'); KB_U(h->bucket.rh.clean); }
+    /* the sweep cursor and the requested count survive the end of a rehash and clear(): hidden state a later resize may (wrongly) rely on -- the key must
+     * not merge two tables that differ in them (seed C19-7d: the cursor is reset when a rehash ENDS instead of when one starts; after a clear in mid-rehash
+     * the stale cursor makes the next rehash skip buckets).  Finer key only: sound for every implementation. */
+    else if (canon_hidden) { KB_C('p'); KB_U(h->bucket.rh.count); KB_C('c'); KB_U(h->bucket.rh.clean); }
     if (s.bad) { KB_C('!'); return; }
     for (b = 0; b < s.bound; b++) {
         const struct cstl_hash_node *n = h->bucket.at[b].n; int steps = 0;
